@@ -5,11 +5,14 @@ mod advdir;
 mod audits;
 mod dirs;
 mod faultdb;
+mod faults;
 mod labels;
 mod markers;
+mod matrix;
 mod mgr;
 mod proofs;
 mod rng;
+mod sched;
 mod treeutil;
 
 use std::io::Write;
@@ -64,8 +67,14 @@ fn main() {
             }
             writeln!(out, "SUMMARY cases={} sequences={} oracle_failures={}", o.cases, o.seqs, o.fails.len()).unwrap();
         }
-        "dirs" | "advdir" => {
-            let cx = if cmd == "dirs" { dirs::run(arg(&args, 2, 1u64), arg(&args, 3, 0u32)) } else { advdir::run(arg(&args, 2, 1u64), arg(&args, 3, 0u32)) };
+        "dirs" | "advdir" | "c10" | "c11" | "c12" | "c13" | "c14" | "c20" => {
+            let cx = match cmd {
+                "dirs" => dirs::run(arg(&args, 2, 1u64), arg(&args, 3, 0u32)),
+                "advdir" => advdir::run(arg(&args, 2, 1u64), arg(&args, 3, 0u32)),
+                "c14" | "c20" => matrix::run(arg(&args, 2, 1u64), arg(&args, 3, 0u32), cmd),
+                "c12" | "c13" => sched::run(arg(&args, 2, 1u64), arg(&args, 3, 0u32), cmd),
+                _ => faults::run(arg(&args, 2, 1u64), arg(&args, 3, 0u32), cmd),
+            };
             out.write_all(cx.out.as_bytes()).unwrap();
             for f in &cx.fails {
                 writeln!(out, "ORACLE-FAIL {}", f).unwrap();
